@@ -13,6 +13,7 @@ EXTENDS Integers, Sequences, FiniteSets, TLC, Json, SequencesExt, FiniteSetsExt
 CONSTANTS Family, MaxR, MaxC, MaxD, Big, Emit
 VARIABLES inst, stage
 R == INSTANCE LasRead
+A == INSTANCE LasReadAlgo
 
 \* ---- building blocks -------------------------------------------------------
 T(sec)     == [k |-> "title", sec |-> sec]
@@ -130,5 +131,7 @@ OnlyVandWsteer == stage = 2 =>
     LET tx == inst.text
         tx2 == [i \in DOMAIN tx |-> IF R!SectionOf(tx, i) # 0 /\ tx[R!SectionOf(tx, i)].sec \in {"V", "W"} THEN tx[i] ELSE Neutral(tx[i])]
     IN R!Read(tx, inst.opts).curves = R!Read(tx2, inst.opts).curves
-EmitInst == (Emit /\ stage = 2) => PrintT(ToJson(inst))
+\* the refinement: the algorithm layer computes exactly what the intent layer demands, on every instance without junk
+AlgoRefinesIntent == (stage = 2 /\ R!JunkAt(inst.text) = {}) => A!AlgoRead(inst.text, inst.opts) = R!Read(inst.text, inst.opts)
+EmitInst == (Emit /\ stage = 2) => PrintT(ToJson(inst @@ [path |-> A!AlgoPath(inst.text, inst.opts, "numpy")]))
 =============================================================================
